@@ -18,7 +18,8 @@ import (
 // configuration's event at the same position (operation, arguments and
 // results; clock readings and ids removed).  The specification requires all
 // digests to be equal and the first run to be a behaviour of Nuts.tla.
-func (g *gen) histProduct(kvOnly bool) {
+func (g *gen) histProduct(fam string) {
+	kvOnly := fam != "product"
 	type conf struct {
 		mode      nutsdb.EntryIdxMode
 		rw, load  nutsdb.RWMode
@@ -50,7 +51,9 @@ func (g *gen) histProduct(kvOnly bool) {
 		g.c.Mode = map[nutsdb.EntryIdxMode]string{nutsdb.HintKeyValAndRAMIdxMode: "keyval", nutsdb.HintKeyAndRAMIdxMode: "keyonly"}[c.mode]
 		g.c.RW = map[nutsdb.RWMode]string{nutsdb.FileIO: "fileio", nutsdb.MMap: "mmap"}[c.rw]
 		rec.Hold = true
-		if kvOnly {
+		if fam == "productfill" {
+			g.histFill()
+		} else if kvOnly {
 			g.histMixed(mixOpts{kinds: []string{"kv"}, pMulti: 50, pNoCommit: 15, pMerge: 6})
 		} else {
 			g.histMixed(mixOpts{kinds: []string{"kv", "list", "set", "zset"}, pMulti: 50, pNoCommit: 15})
